@@ -19,6 +19,7 @@ RULE = ("generated projects of 2..6 files: entry files with `out` statements, sh
         "file, a shared library or a file that is both built and imported.")
 RULE += (" " + 'Also: the shared library has a relative import of its own and files of the same relative name with other types sit next to the importers (one compatible, one not); a different library under the same relative name one directory down; the same base name in two directories.')
 RULE += (" " + 'Every command-line file also exports a function, a module and a tuple; files that import another command-line file call, instantiate and read them (also through map).')
+RULE += (" " + 'In 20 % of the projects the shared library names an unloadable file (syntax error, type error, missing) in a place that is never evaluated, also one import further down.')
 
 KINDS = ["entry", "entry-imports-lib", "entry-imports-local-lib", "entry-imports-local-lib", "entry-imports-entry", "lib-no-out", "syntax-error", "type-error", "runtime-error",
          "failing-out", "entry-yaml", "include-user"]
